@@ -150,7 +150,44 @@ pub fn run(ctx: &Ctx) -> i32 {
         for step in 0..steps {
             // edits between runs
             if step > 0 {
-                match rng.below(4) {
+                match rng.below(7) {
+                    4 => {
+                        // remove every eligible file at the top of the tree and below: the next report must be the empty one
+                        fn wipe(d: &str) {
+                            for (n, is_dir) in listing(d) {
+                                let p = format!("{}/{}", d, n);
+                                if is_dir {
+                                    wipe(&p);
+                                } else if n.ends_with(".sol") {
+                                    let _ = std::fs::remove_file(&p);
+                                }
+                            }
+                        }
+                        wipe(&tree);
+                        acc.cov("edit:remove-all-sources");
+                    }
+                    5 => {
+                        // rename a file to another name of the same length: the report keeps its length but not its content
+                        if let Some((name, false)) = listing(&tree).into_iter().find(|(n, d)| !*d && n.ends_with(".sol") && n.len() > 4 && n.is_ascii()) {
+                            let mut chars: Vec<char> = name.chars().collect();
+                            chars[0] = if chars[0] == 'Q' { 'R' } else { 'Q' };
+                            let new: String = chars.into_iter().collect();
+                            if new.len() == name.len() && !file_exists(&format!("{}/{}", tree, new)) {
+                                let _ = std::fs::rename(format!("{}/{}", tree, name), format!("{}/{}", tree, new));
+                                acc.cov("edit:rename-same-length");
+                            }
+                        }
+                    }
+                    6 => {
+                        // push every finding of one file down by one line
+                        if let Some((name, false)) = listing(&tree).into_iter().find(|(n, d)| !*d && n.ends_with(".sol")) {
+                            let p = format!("{}/{}", tree, name);
+                            if let Ok(t) = std::fs::read_to_string(&p) {
+                                let _ = std::fs::write(&p, format!("\n{}", t));
+                                acc.cov("edit:shift-lines");
+                            }
+                        }
+                    }
                     0 => {
                         let _ = std::fs::write(format!("{}/Added{}.sol", tree, step), rng.pick(&pool.progs).1.as_bytes());
                         acc.cov("edit:add-file");
